@@ -406,18 +406,46 @@ func ruleErrPropagates(rule string) RuleFn {
 					}
 				}
 				ne := an.NonNilErrEdges(fn, k, idx)
-				if len(ne) == 0 {
-					return
-				}
-				n++
 				var errVal ssa.Value = k
 				if idx >= 0 {
+					errVal = nil
 					for _, r := range an.Referrers(k) {
 						if ex, ok := r.(*ssa.Extract); ok && ex.Index == idx {
 							errVal = ex
 						}
 					}
 				}
+				if len(ne) == 0 {
+					// never tested on a live branch: fine when the error is handed on as it is (returned, passed,
+					// stored, merged), a violation when it is only compared under a condition that can never hold,
+					// or not looked at at all
+					handedOn := false
+					if errVal != nil {
+						live := an.Live(fn)
+						for _, r := range an.Referrers(errVal) {
+							if !live[r.Block()] {
+								continue
+							}
+							switch r.(type) {
+							case *ssa.BinOp, *ssa.DebugRef:
+							default:
+								handedOn = true
+							}
+						}
+					}
+					if handedOn {
+						return
+					}
+					why, ignorable := ignoredErrorOK(an.ShortName(fn), an.CalleeName(k))
+					cons := fmt.Sprintf("%s: a failure of %s is never lost", an.ShortName(fn), an.CalleeName(k))
+					if ignorable {
+						c.OK(rule, cons, "reasoned exception: "+why, k)
+					} else {
+						c.Bad(rule, cons, "the error "+an.CalleeName(k)+" returns is never looked at on any live branch (discarded, or compared only under a condition that cannot hold): what it rejects is accepted", k, nil)
+					}
+					return
+				}
+				n++
 				cons := fmt.Sprintf("%s: a failure of %s is never lost", an.ShortName(fn), an.CalleeName(k))
 				bad := false
 				for _, e := range ne {
@@ -610,4 +638,19 @@ func ruleExportedFields(rule string) RuleFn {
 			c.Check(len(calls) == 1, rule, "dig.newParamObject hands every remaining field to newParamObjectField", "one call in the field loop", "fields are not all passed through newParamObjectField", nil, nil)
 		}
 	}
+}
+
+// ignoredErrorOK lists the call sites whose error result is deliberately not looked at, with the reason.
+func ignoredErrorOK(fn, callee string) (string, bool) {
+	for _, x := range ignoredErrors {
+		if x[0] == fn && x[1] == callee {
+			return x[2], true
+		}
+	}
+	return "", false
+}
+
+var ignoredErrors = [][3]string{
+	{"dig.newParamGroupedSlice", "dig.isFieldOptional", "a malformed optional tag on a group field counts as not optional: the registration is accepted (C14 allows either outcome) and a well-formed true is rejected two lines further down"},
+	{"dig.newResultGrouped", "dig.isFieldOptional", "same, for group-tagged result fields"},
 }
